@@ -10,7 +10,10 @@ CONSTANTS
   RejectDelta = 4
   MaxHeight = 3
   MaxNow = 4
+  Margins = {0, 1, 2}
+  ExpiredOffs = {1, 10, 90}
   KeysendQuirk = TRUE
   MaxLen = 12
+  Focus = "all"
 INVARIANTS Dump
 CHECK_DEADLOCK FALSE
